@@ -3,6 +3,8 @@ package harness
 import (
 	"bytes"
 	"fmt"
+	"seehuhn.de/go/sfnt"
+	"seehuhn.de/go/sfnt/cmap"
 	"sort"
 	"time"
 
@@ -554,6 +556,99 @@ func c07Layouter(r *run.Run) {
 		})
 }
 
+// Layouter on fonts whose substitution rules (or character map) name glyph ids the font does not have:
+// adversarial, but what the readers accept; Layout has to survive them.
+func c07LayouterHostile(r *run.Run) {
+	strs := []string{"", "A", "AB", "BA", "fAi", "ABAB"}
+	type variant struct {
+		name string
+		mk   func() []gtab.Subtable
+		typ  uint16
+	}
+	big := glyph.ID(60000)
+	variants := []variant{
+		{"GSUB1.1 A,B + 1000", func() []gtab.Subtable {
+			return []gtab.Subtable{&gtab.Gsub1_1{Cov: coverage.Set{1: true, 2: true}, Delta: 1000}}
+		}, 1},
+		{"GSUB1.2 A -> 0xFFFF", func() []gtab.Subtable {
+			return []gtab.Subtable{&gtab.Gsub1_2{Cov: coverage.Table{1: 0}, SubstituteGlyphIDs: []glyph.ID{0xFFFF}}}
+		}, 1},
+		{"GSUB2.1 A -> B 60000", func() []gtab.Subtable {
+			return []gtab.Subtable{&gtab.Gsub2_1{Cov: coverage.Table{1: 0}, Repl: [][]glyph.ID{{2, big}}}}
+		}, 2},
+		{"GSUB4.1 A B -> 60000", func() []gtab.Subtable {
+			return []gtab.Subtable{&gtab.Gsub4_1{Cov: coverage.Table{1: 0}, Repl: [][]gtab.Ligature{{{In: []glyph.ID{2}, Out: big}}}}}
+		}, 4},
+		{"GSUB1.1 A -> last glyph + 1", func() []gtab.Subtable {
+			return []gtab.Subtable{&gtab.Gsub1_1{Cov: coverage.Set{1: true}, Delta: 5}}
+		}, 1},
+		{"no GSUB; the character map sends B to glyph 500", nil, 0},
+	}
+	r.Explore(explore.Config{Name: "C07.layouter-hostile", Deadline: r.PartDeadline(0.2)},
+		"sfnt.Layouter on 6-glyph glyf and CFF fonts, written and read back, whose GSUB rules produce glyph ids the font does not have (6, 1001, 60000, 0xFFFF; single, multiple and ligature substitution) or whose character map does, with and without a GPOS table: Layout of 6 strings does not panic and conserves the text",
+		func(c *explore.Ctx) {
+			kind := []int{gen.KindGlyf, gen.KindCFF}[c.Choose(2, "outline kind")]
+			v := variants[c.Choose(len(variants), "variant")]
+			withGpos := c.Bool("gpos")
+			f, _ := FontFromChoices(gen.FontOpts{NoMeta: true, NoLayout: true}, kind, 2, 0, 0, 1)
+			cm := cmap.Format4{'A': 1, 'B': 2, 'f': 3, 'i': 4}
+			f.Gsub, f.Gpos, f.Gdef = nil, nil, nil
+			if v.mk == nil {
+				cm['B'] = 500
+			} else {
+				f.Gsub = gsubInfo("liga", gen.MakeLookup(v.typ, gen.Flags[0], v.mk()))
+			}
+			f.InstallCMap(cm)
+			if withGpos {
+				f.Gpos = gsubInfo("kern", gen.MakeLookup(2, gen.Flags[0], []gtab.Subtable{gtab.Gpos2_1{{Left: 1, Right: 2}: {First: &gtab.GposValueRecord{XAdvance: -40}}, {Left: big, Right: 1}: {First: &gtab.GposValueRecord{XAdvance: 7}}}}))
+			}
+			desc := fmt.Sprintf("%s, %s, gpos=%v", gen.KindNames[kind], v.name, withGpos)
+			c.Sample(func() any { return desc })
+			c.Outcome(desc)
+			file, err := writeFont(f)
+			if err != nil {
+				c.Tag("not writable: " + err.Error())
+				return
+			}
+			g, err := sfnt.Read(bytes.NewReader(file))
+			if err != nil {
+				c.Tag("not accepted by the reader: " + err.Error())
+				return
+			}
+			c.Nontrivial()
+			for _, s := range strs {
+				var out []glyph.Info
+				fin, pmsg := withWatchdog(20*time.Second, func() {
+					lay, err := g.NewLayouter(language.English, nil, nil)
+					if err != nil {
+						return
+					}
+					out = append(out, lay.Layout(s)...)
+					out = append(out[:0], lay.Layout(s)...)
+				})
+				if !fin {
+					c.FailObserved("C07.terminates", "Layouter / hostile glyph ids", "Layout(%q) does not return within 20 s; %s", s, desc)
+					return
+				}
+				if pmsg != "" {
+					c.Fail("C07.panic", "Layouter: "+explore.PanicSignature(pmsg), "Layout(%q) panics: %s; %s", s, pmsg, desc)
+					return
+				}
+				var runes []rune
+				for _, gi := range out {
+					runes = append(runes, gi.Text...)
+				}
+				sort.Slice(runes, func(i, j int) bool { return runes[i] < runes[j] })
+				want := []rune(s)
+				sort.Slice(want, func(i, j int) bool { return want[i] < want[j] })
+				if string(runes) != string(want) {
+					c.Fail("C07.text", "Layouter / hostile glyph ids", "Layout(%q) carries the text %q; %s", s, string(runes), desc)
+					return
+				}
+			}
+		})
+}
+
 // tables obtained from bytes: every single-field corruption of encoded
 // well-formed tables that gtab.Read accepts is applied.
 func c07Bytes(r *run.Run) {
@@ -636,6 +731,7 @@ func init() {
 		// cheap parts first; the history search is by far the largest and takes what remains
 		c07Simple(r)
 		c07HistoryPairs(r)
+		c07LayouterHostile(r)
 		c07Structures(r)
 		c07Bytes(r)
 		c07MapOrder(r)
